@@ -806,7 +806,7 @@ func report(p *plan, res result) string {
 
 func buildPlans(tier string, seed uint64, nSSE, nMP int) []*plan {
 	r := rng.New(seed ^ 0xC12C12)
-	ns, nm, reps := 220, 220, 3
+	ns, nm, reps := 400, 400, 4
 	if tier == "thorough" {
 		ns, nm, reps = 2500, 2500, 25
 	}
@@ -1016,7 +1016,7 @@ func main() {
 			defer func() { <-outer }()
 			for len(chunk) > 0 {
 				mu.Lock()
-				stop := failures >= 6
+				stop := failures >= 8
 				mu.Unlock()
 				if stop {
 					return
@@ -1040,6 +1040,12 @@ func main() {
 				if culprit < 0 {
 					// parallel child: rerun the unfinished ones one per process
 					for _, id := range rest {
+						mu.Lock()
+						enough := failures >= 8
+						mu.Unlock()
+						if enough {
+							break
+						}
 						l2, e2, _ := runChild([]int{id}, 1, false)
 						mu.Lock()
 						for k, v := range l2 {
